@@ -60,7 +60,7 @@ def flat_cases(tier):
 
 
 # small programs in which a parameter placeholder meets default values / star parameters inside a commutative operation
-CORNER_PROGRAMS = ["y = (lambda x=1: x)(2) + 1\n", "y = 2 * (lambda a, b=3: a + b)(1)\n", "def f(a, b=2):\n    return a + b\nz = f(1) + f(2, b=3)\n",
+CORNER_PROGRAMS = ["b = 2\ny = (lambda a=b: a)(1) + 1\n", "k = 3\ndef f(a, b=k):\n    return a + b\nz = f(1) + k\n", "y = (lambda x=1: x)(2) + 1\n", "y = 2 * (lambda a, b=3: a + b)(1)\n", "def f(a, b=2):\n    return a + b\nz = f(1) + f(2, b=3)\n",
                    "g = (lambda *args, **kw: len(args) + len(kw))(1, k=2) + 0\n", "def h(p, /, q=1, *, r=2):\n    return p + q * r\nprint(h(1) + h(2, 3, r=4))\n"]
 
 
